@@ -529,6 +529,14 @@ func (s *Sim) yield(site int32) {
 		th.opSite = site
 		s.park(th)
 	}
+	if s.yields&511 == 0 {
+		// runaway recursion in the code under test would end in a fatal (unrecoverable) stack
+		// overflow; turn it into an ordinary panic long before that
+		var pcs [2048]uintptr
+		if runtime.Callers(0, pcs[:]) == len(pcs) {
+			panic("runaway recursion: call depth exceeded 2000 frames")
+		}
+	}
 	th.budget--
 	if th.budget > 0 && !(s.hotMod != 0 && s.isHot(site) && th.budget%2 == 0) {
 		return
